@@ -690,8 +690,21 @@ class UniformTime(np.ndarray, TimeInterface):
         #                  np.int64(sampling_interval),dtype=np.int64)
 
         # But it's unclear whether that's really the behavior we want?
-        time = np.arange(np.int64(t0), np.int64(t0 + duration),
-                         np.int64(sampling_interval), dtype=np.int64)
+
+        # The number of samples is the requested length; when only a duration
+        # was given, as many multiples of the interval as fit before it.
+        # Everything is computed on integers of the base unit, so that no
+        # sample is gained or lost to floating point rounding:
+        if length is not None:
+            n_samples = int(length)
+        else:
+            n_samples = max(-((-int(duration)) // int(sampling_interval)), 0)
+        time = (np.int64(t0) + np.arange(n_samples, dtype=np.int64) *
+                np.int64(sampling_interval))
+        # The duration covers exactly these samples' intervals:
+        duration = TimeArray(n_samples * np.int64(sampling_interval),
+                             time_unit=base_unit)
+        duration.convert_unit(time_unit)
 
         time = np.asarray(time).view(cls)
         time.time_unit = time_unit
